@@ -3,11 +3,14 @@
 # Confirms a seeded breaking change produced by a fresh sub-agent under /tmp/seed/<ID>/_out and archives it as
 # seeded/<ID>-<i>/{patch.diff,demo.py,meta.json}; then runs the given checks (default: <ID>) against it.
 cd "$(dirname "$0")/.."
-ID="$1"; I="$2"; shift 2; CHECKS="${*:-$ID}"
-SRC="/tmp/seed/$ID/_out"; DST="seeded/$ID-$I"
+# usage: seed_accept.sh <worktree-name under /tmp/seed> <i> [property id (default: worktree name)] [extra check ids...]
+WTN="$1"; I="$2"; ID="${3:-$1}"; [ $# -ge 3 ] && shift 3 || shift 2; CHECKS="$ID $*"
+SRC="/tmp/seed/$WTN/_out"
+N=1; while [ -e "seeded/$ID-$N" ]; do N=$((N+1)); done
+DST="seeded/$ID-$N"
 mkdir -p "$DST"
 cp "$SRC/change$I.diff" "$DST/patch.diff"; cp "$SRC/demo$I.py" "$DST/demo.py"; cp "$SRC/meta$I.json" "$DST/meta.src.json"
-WT="/tmp/seedval/$ID-$I"; rm -rf "$WT"; git -C /repo worktree prune
+WT="/tmp/seedval/$ID-$N"; rm -rf "$WT"; git -C /repo worktree prune
 git -C /repo worktree add --detach "$WT" HEAD -q || exit 2
 PYTHONPATH=/tmp/seedshim timeout 120 /venv/bin/python "$DST/demo.py" "$WT" > "$WT.demo0.txt" 2>&1; RC0=$?
 (cd "$WT" && git apply "$OLDPWD/$DST/patch.diff") || { echo "patch does not apply"; git -C /repo worktree remove --force "$WT"; exit 2; }
